@@ -40,6 +40,10 @@ CHECKS = {
          "Types to nesting depth 2 (quick) / 3 (thorough) plus a selective extra level (containers of unions holding slices) over pairs, triples, records with upper- and lower-case fields, unions, a generic union and slices; record/union types and the functions `a = b`, `a <> b` are emitted by the fc built from the working tree and compiled into the driver; every slice value is built through every producer path (literal, slice.New, nil, Take, Skip, Tail, PopLast, Filter, Map, Append, PushLast, PushHead). For all ordered pairs of values of a type: no panic, = agrees with equality of the canonical descriptions, <> is its negation; transitivity asserted directly on small domains.",
          "Composite types take their component values from the first 2-3 values of the component domains; floats, functions, dictionaries and buffers are not first-order values of the statement.",
          "DESIGN.md C10"),
+ "C16": ("deviation-bounded exhaustive mutation of seed programs (choice-tree explorer, every combination of <= d mutation operators), an ill-typed definition grammar and complete enumeration of fault patterns over argument lists; one fc process per case, outcome classification",
+         "For the 40 smallest seeds (quick) / all ~125 seeds (thorough: samples, the programs embedded in fc's tests, boundary seeds) every single mutation - del/dup/swap of every token, 18 insertions at every token boundary, 5 re-indentations of every line, truncation at every byte offset, final newline removed - and (thorough) every pair of mutations on the smallest seeds is given to the fc built from the working tree; 30 ill-typed / self-referential definitions (thorough: all ordered pairs of them); every fault pattern {ok, missing input, input is a directory, destination is a directory, destination is a symlink to /dev/full, syntax error} over argument lists of 1..3 files. Each run must end as `ok` (exit 0, every gen_X.go rewritten and complete) or `rejected` (non-zero, diagnostic, nothing for the offending file, earlier outputs complete); hang, Go runtime fatal error, incomplete or dirty output violate.",
+         "Timeout 10 s with a 30 s re-run (normal runs take milliseconds); running as root, so permission faults are replaced by directory / /dev/full destinations.",
+         "DESIGN.md C16"),
 }
 NOT_APPLICABLE = []
 
